@@ -32,6 +32,24 @@ def mutate(rng, data, k=None):
 
 
 # ------------------------------------------------------------------ documents
+# a server names the charset: every codec name the interpreter knows is a possible value, including the
+# bytes-to-bytes and str-to-str transforms (hex, zlib, rot13 ...) that str/bytes refuse with LookupError
+NONTEXT_CODECS = ['hex', 'hex_codec', 'base64', 'base_64', 'zlib', 'zip', 'bz2', 'uu', 'quopri', 'quoted-printable', 'rot13', 'rot_13']
+ODD_CODECS = ['idna', 'punycode', 'unicode_escape', 'raw_unicode_escape', 'undefined', 'mbcs', 'oem', 'utf-7', 'utf-32', 'utf-16-be',
+              'utf-8-sig', 'cp65001', 'charmap', 'ascii', 'shift_jis', 'iso2022_jp', 'hz', 'big5', 'cp037']
+
+
+def charset(rng):
+    r = rng.random()
+    if r < 0.3:
+        return rng.choice(['utf-8', 'latin-1', 'utf-16', 'UTF-8', 'iso-8859-1'])
+    if r < 0.55:
+        return rng.choice(NONTEXT_CODECS)
+    if r < 0.8:
+        return rng.choice(ODD_CODECS)
+    return rng.choice(['bogus', 'x' * 300, '\x00', '', '"', 'utf-8;', ' hex ', 'HEX', 'Zlib'])
+
+
 def html_doc(rng, links):
     attrs = ['href', 'src', 'data', 'action', 'background', 'style', 'srcset', 'content']
     parts = ['<html><head>']
@@ -40,7 +58,7 @@ def html_doc(rng, links):
     if rng.random() < 0.3:
         parts.append('<base href="%s">' % rng.choice(['/', 'http://[::1', 'http://a.test/b/', '\udcff', 'javascript:1', '']))
     if rng.random() < 0.3:
-        parts.append('<meta charset="%s">' % rng.choice(['utf-8', 'bogus', 'utf-16', 'latin-1', 'x' * 300, '\x00']))
+        parts.append('<meta charset="%s">' % charset(rng))
     if rng.random() < 0.3:
         parts.append('<style>a { background: url(%s) } @import "%s";</style>' % (rng.choice(["'/c1.png'", '/c2.png', 'http://[', '"\\', '\\0']), rng.choice(['/i.css', 'x:', ''])))
     if rng.random() < 0.3:
@@ -73,7 +91,7 @@ def html_doc(rng, links):
 
 def css_doc(rng):
     d = ('@charset "%s"; @import url(%s); a { background: url("%s") } b{b:url(%s)}' % (
-        rng.choice(['utf-8', 'bogus', '\x00']), rng.choice(['/i.css', "'x'", 'http://[', '']),
+        charset(rng), rng.choice(['/i.css', "'x'", 'http://[', '']),
         rng.choice(['/bg.png', '\\', 'http://a.test:x/', '\\000041']), rng.choice(['/q.png', ')', '("']))).encode('utf-8', 'replace')
     return mutate(rng, d) if rng.random() < 0.5 else d
 
@@ -88,7 +106,7 @@ def js_doc(rng):
 def sitemap_doc(rng):
     d = ('<?xml version="1.0" encoding="%s"?><urlset xmlns="http://www.sitemaps.org/schemas/sitemap/0.9">'
          '<url><loc>%s</loc></url><url><loc>%s</loc></url></urlset>' % (
-             rng.choice(['UTF-8', 'bogus', 'utf-16']), rng.choice(['http://a.test/s1', 'http://[', '', '&bad;', '\x00']),
+             charset(rng), rng.choice(['http://a.test/s1', 'http://[', '', '&bad;', '\x00']),
              rng.choice(['/s2', 'http://a.test/s3', ']]>']))).encode('utf-8', 'replace')
     r = rng.random()
     if r < 0.3:
@@ -123,7 +141,8 @@ def http_response(rng, body=None, ctype=None, location=None):
     hdrs = []
     if ctype is None:
         ctype = rng.choice(['text/html', 'text/html; charset=utf-8', 'text/html; charset=bogus', 'text/css', 'application/javascript',
-                            'application/xml', 'text/plain', 'image/png', '', 'text/html; charset="', 'a/b; charset=utf-16', '\xff/\xfe'])
+                            'application/xml', 'text/plain', 'image/png', '', 'text/html; charset="', 'a/b; charset=utf-16', '\xff/\xfe',
+                            'text/html; charset=' + charset(rng), 'text/css; charset=' + charset(rng), 'text/xml; charset=' + charset(rng)])
     if ctype != '':
         hdrs.append(('Content-Type', ctype))
     if location is not None or status in (301, 302, 307):
